@@ -104,6 +104,12 @@ def rotating(speed, phase_deg):
     return {'kind': 'rotating', 'speed': float(speed), 'phase': float(phase_deg)}
 
 
+def ml_plus_rotating(cu, cv, speed, phase_deg):
+    """Multilinear in space plus an hour-dependent uniform part (varies with every coordinate
+    of a query: hour, pressure, latitude, longitude)."""
+    return {'kind': 'sum', 'ml': multilinear(cu, cv), 'rot': rotating(speed, phase_deg)}
+
+
 def _ml(c, p, lat, lon):
     x, y, z = lon + 76.0, lat - 41.0, (p - 500.0) / 100.0
     return c[0] + c[1] * x + c[2] * y + c[3] * z + c[4] * x * y + c[5] * x * z + c[6] * y * z + c[7] * x * y * z
@@ -145,6 +151,9 @@ def wind_at(spec, hour, p, lat, lon):
         return spec['speed'] * math.sin(b), spec['speed'] * math.cos(b)
     if kind == 'multilinear':
         return _ml(spec['cu'], p, lat, lon), _ml(spec['cv'], p, lat, lon)
+    if kind == 'sum':
+        a, b = wind_at(spec['ml'], hour, p, lat, lon), wind_at(spec['rot'], hour, p, lat, lon)
+        return a[0] + b[0], a[1] + b[1]
     if kind == 'nodal':
         i0, i1, wi = _bracket(LEVELS, p)
         j0, j1, wj = _bracket(LATS, lat)
@@ -162,7 +171,7 @@ def wind_at(spec, hour, p, lat, lon):
 
 
 def hour_dependent(spec):
-    return spec['kind'] == 'rotating'
+    return spec['kind'] in ('rotating', 'sum')
 
 
 # --------------------------------------------------------------------------- the property's formula
